@@ -828,9 +828,21 @@ def _pair_check(ctx, fn, cfg, n, carriers, prop) -> Optional[str]:
         for k in z.walk():
             if isinstance(k, ast.Call) and (A.dotted(k.func) or "").split(".")[-1] == prop.name and len(k.args) >= 3 and isinstance(k.args[0], ast.Name) and k.args[0].id in carriers:
                 pcs.append(k)
+    # two loops over the same sequence may name their variable differently (`for s in successors` in the
+    # propagation, `for succ in successors` in the list edit): a loop variable stands for the sequence it walks
+    dom = {}
+    for lp_ in A.walk_no_nested(fn.node):
+        if isinstance(lp_, ast.For) and isinstance(lp_.target, ast.Name):
+            dom.setdefault(lp_.target.id, set()).add(A.unparse(lp_.iter))
+
+    def same_old(old: str, olds) -> bool:
+        if old in olds:
+            return True
+        return bool(dom.get(old)) and any(dom.get(o, set()) & dom[old] for o in olds)
+
     for k in pcs:
         old, new = A.unparse(k.args[1]), A.unparse(k.args[2])
-        if not any(new == rhs and (old in olds) for rhs, olds in stores):
+        if not any(new == rhs and same_old(old, olds) for rhs, olds in stores):
             return f"{prop.name}({A.unparse(k.args[0])}, {old}, {new}) at line {A.lineno(k)} renames a different pair than the list edit ({'; '.join(f'new={r}' for r, _ in stores[:2])}): the exiting block gets the wrong name"
     return None
 
